@@ -15,6 +15,8 @@ Topics
             try_new timeout; libs/testing/src/odk.rs try_new timeout;
             libs/serial/src/serial_port.rs configure_port setters
   VSign     libs/testing/src/virtual_sign_bus.rs  dispatch and per-handler state tables
+  VSignFull libs/testing/src/virtual_sign_bus.rs  every method of `impl VirtualSign`, compiled statement by
+            statement into a state-passing function (translate_vsign.py), and the bus loop
   Controller  src/sign.rs   every protocol method of `impl Sign`, compiled statement by statement into an
             interaction tree (translate_ctrl.py)
 
@@ -848,7 +850,13 @@ def gen_controller(repo):
     return translate_ctrl.gen_controller(repo)
 
 
+def gen_vsign_full(repo):
+    import translate_vsign
+    return translate_vsign.gen_vsign_full(repo)
+
+
 TOPICS = {
+    "VSignFull": (gen_vsign_full, ["Flipdot.Tie.VSignSupport"], "Flipdot.Generated.VSignFull"),
     "Controller": (gen_controller, ["Flipdot.Tie.CtrlSupport"], "Flipdot.Generated.Controller"),
     "Message": (gen_message, ["Flipdot.Tie.Kind"], "Flipdot.Generated.Message"),
     "SignType": (gen_signtype, ["Flipdot.Model.SignType"], "Flipdot.Generated.SignType"),
@@ -867,7 +875,8 @@ def translate(repo, outdir, topics=None):
         try:
             files, body = gen(repo)
             head, sha = header(topic, files, repo)
-            text = head + "".join("import %s\n" % i for i in imports) + "namespace %s\nopen Flipdot\n\n" % ns + body + "\nend %s\n" % ns
+            text = (head + "".join("import %s\n" % i for i in imports) + "set_option linter.unusedVariables false\n"
+                    + "namespace %s\nopen Flipdot\n\n" % ns + body + "\nend %s\n" % ns)
             old = open(target).read() if os.path.exists(target) else None
             if old != text:
                 with open(target + ".tmp", "w") as f:
